@@ -188,9 +188,17 @@ func c06Compare(cat *lungo.Catalog, reload func(*lungo.Catalog) (*lungo.Catalog,
 	for _, p := range append(coherenceProblems(cat), uniqueProblems(cat)...) {
 		had[p.class] = true
 	}
+	has := map[string]bool{}
 	for _, p := range append(coherenceProblems(re), uniqueProblems(re)...) {
+		has[p.class] = true
 		if !had[p.class] {
 			out = append(out, [2]string{"reloaded-" + p.class, "only after reload: " + p.what})
+		}
+	}
+	// ... and an index that is damaged before the reload and sound after it enforces other constraints than the reloaded one
+	for _, p := range append(coherenceProblems(cat), uniqueProblems(cat)...) {
+		if !has[p.class] {
+			out = append(out, [2]string{"live-only-" + p.class, "only before the reload (the reloaded index differs from the live one): " + p.what})
 		}
 	}
 	if a, b := c06Probes(cat, deep), c06Probes(re, deep); a != b {
@@ -310,7 +318,7 @@ func init() {
 		}
 		// (b) every index option combination
 		keys := []bson.D{bD("a", int32(1)), bD("a", int32(-1)), bD("a", int32(1), "b", int32(-1)), bD("a.b", int32(1))}
-		partials := []bson.D{nil, bD("b", bD("$gt", int32(0))), bD("b", bD("$exists", true))}
+		partials := []bson.D{nil, bD("b", bD("$gt", int32(0))), bD("b", bD("$exists", true)), {}}
 		expiries := []*int32{nil, i32(0), i32(3600)}
 		for _, key := range keys {
 			for _, unique := range []bool{false, true} {
